@@ -84,7 +84,8 @@ def c07(tier, seed):
              "implementation: for each selected luma value all 65536 (Cb,Cr) pairs through yuv420_to_rgba on 4x1 "
              "pictures (%d luma values; thorough = all 256 = the whole domain), and again on 1, 2, 3, 5, 6 and 7 pixel wide "
              "pictures so that left-over pixels after the last group of four are swept too (thorough: every luma value in a "
-             "left-over position); every triple is a distinct case" % len(ys))
+             "left-over position), with neighbouring chroma samples different and with flat chroma (whole groups of one colour), "
+             "each sweep preceded in the same process by a wider picture; every triple is a distinct case" % len(ys))
 
 
 # =========================================================================== C08
@@ -236,8 +237,8 @@ def c16(tier, seed):
     run.nontrivial = len(cmds)
     run.exhaustive = True
     return run.finish(
-        rule="exhaustive over widths 1..%d x heights 0..%d x strengths 1..12 (content alternately all-zero and seeded "
-             "random) plus the published QUANT_TO_STRENGTH table; the outcome must be a return equal to "
+        rule="exhaustive over widths 1..%d x heights 0..%d x strengths 1..12 (content all-zero, seeded random, and 0 / 255 alternating by column, by row or at "
+             "random; calls in random order) plus the published QUANT_TO_STRENGTH table; the outcome must be a return equal to "
              "Deblock!DeblockImage and the table must equal Table J.2 as transcribed in Deblock!TableJ2" % (wmax, hmax))
 
 
@@ -490,7 +491,8 @@ def c02(tier, seed):
              "INTRADC codes, all 102 Table-16 events x sign as first/middle/last event, escapes in the 7/8/11-bit forms at "
              "boundary levels x boundary quantizers, DQUANT sequences, five sparsity shapes, stuffing, 0..2 extra-information "
              "bytes, every size 1..17 x 1..17 plus larger and fixed-size codes, standard-mode PLUSPTYPE and baseline headers, "
-             "and seeded random pictures; TLC encodes each to bytes, the real decoder decodes them, TLC recomputes every "
+             "seeded random pictures, and runs of 4-7 intra pictures on ONE decoder (changing sizes incl. equal area, repeated TRs, "
+             "clean-ups and rejected calls in between); TLC encodes each to bytes, the real decoder decodes them, TLC recomputes every "
              "sample (zig-zag, dequantisation, wide-integer ideal IDCT with +-1 only inside the eps(F) boundary band) and "
              "compares planes, sizes, header and reader position; distinct = pictures")
 
@@ -617,8 +619,9 @@ def c03(tier, seed):
     return run.finish(
         rule="histories I, P, P...: every macroblock-type mix over {not-coded, INTER, INTER+Q, INTER4V, INTRA, INTRA+Q, "
              "INTER4V+Q} on 1 and 2 macroblocks (3 in thorough / sampled in quick) with differentials from {-16, -15.5, -8, "
-             "-0.5, 0, 0.5, 7.5, 15.5}^2, sizes not multiples of 16, truncation after every macroblock, predicted pictures "
-             "without reference (must be rejected), random chains on larger grids with uniformly drawn differentials, and "
+             "-0.5, 0, 0.5, 7.5, 15.5}^2, sizes not multiples of 16, truncation after every macroblock (also after a disposable "
+             "picture), predicted pictures without reference incl. header-only and INTRA-only truncated ones (must be rejected), every "
+             "two-macroblock picture enumerated by TLC (GenPictures), random chains on larger grids with uniformly drawn differentials, and "
              "standard-mode pictures; references are what the real decoder produced (adopted); TLC recomputes vectors "
              "(median prediction, wrap), chroma vectors, bilinear prediction with edge clamp, residuals, and compares planes")
 
@@ -743,7 +746,9 @@ def c15(tier, seed):
     return run.finish(
         rule="every sequence of 1..%d pictures I{I,P,D}* x sizes {16x16, 17x3, 33x16} x {Sorenson v0, v1, standard custom-format} "
              "delivered (a) concatenated in one reader with all bytes present before the first call and (b) one reader per "
-             "picture, plus random longer concatenated sequences; both deliveries are validated in pixel mode against the same "
+             "picture, plus random longer concatenated sequences, pictures ending in the shortest possible macroblock at every "
+             "alignment, and streams of 170+ pictures (about 25000 bytes) through one reader; stuffing and extra-information bytes "
+             "drawn for every picture; histories run with and without the reader probe; both deliveries are validated in pixel mode against the same "
              "model and after every call the reader probe must equal the stream at the end of that picture's macroblock data"
              % (3 if tier == "quick" else 4))
 
@@ -905,7 +910,9 @@ def c06(tier, seed):
              "PLUSPTYPE: all 2^10 OPPTYPE mode patterns, 8 types x MPPTYPE flags, %s CPFMT indications, 16 PAR codes + EPAR, 256 "
              "CPCFC x 4 ETR, UUI, 4 SSS, CPM/PSBI, 16 x 16 ELNUM/RLNUM under scalability, 8 RPSMF, TRPI/TRP, TRB 3/5 bits; every "
              "single-marker malformation (must be rejected); UFEP=000 headers after arbitrary previous modes (inheritance); random "
-             "cross products; plus decoded pictures reporting their header and size; distinct = distinct abstract headers"
+             "cross products; plus decoded pictures reporting their header and size: Sorenson I/P/D, extreme aspect ratios, predicted "
+             "pictures carrying another size, standard-mode chains of UFEP=000 pictures, and every history of the size model "
+             "(Format.tla) exported by TLC; distinct = distinct abstract headers"
              % ("all 65536" if thorough else "1024 stratified", "all 512 x 289" if thorough else "8 x 289 + 512 x 8"))
 
 
@@ -1104,7 +1111,8 @@ def c12(tier, seed):
         rule="exhaustive: all 64 x 64 (predictor, differential) pairs through mv_decode (both components), all 253 four-vector sums "
              "-128..124 through the chroma rounding; predict_candidate for every macroblock position of grids 1..4 wide x 3 rows x "
              "block 0..3 with neighbours drawn from {one-vector, four-vector, zero (intra / not coded)}; and P pictures on 3x3, 1x4, "
-             "4x1, 5x2 grids whose differentials are uniform over -16..15.5, validated in pixel mode; the spec-side lemmas (wrap "
+             "4x1, 5x2 grids whose differentials are uniform over -16..15.5 and with every zero-candidate kind (not coded, INTRA, "
+             "INTRA+Q) in every column between predicted macroblocks, validated in pixel mode; the spec-side lemmas (wrap "
              "lands in range and is congruent; inversion formulation = modular formulation; chroma rounding odd-symmetric) are "
              "checked exhaustively by TLC in MCTables")
 
@@ -1277,7 +1285,8 @@ def c10(tier, seed):
              "requires every sample inside the eps(F) band and within 1 of the rounded ideal value, accumulates error and squared-"
              "error sums per position, and evaluates the five Annex A thresholds per data set in TLA+ (AnnexAVerdict); plus the "
              "all-zero block, %d DC-only blocks and 2 x %d first-row / first-column blocks over -2048..2047 through the sparse "
-             "shortcuts" % (n_annex, seeds, len(dcs), nshape))
+             "shortcuts, every support pattern, blocks of all kinds mixed in one idct_channel call, and every crop 1..8 x 1..8 of the "
+             "output plane" % (n_annex, seeds, len(dcs), nshape))
 
 
 # =========================================================================== C17
@@ -1501,7 +1510,9 @@ def c17(tier, seed):
              "implementation: %d of the %d call orders TLC exported are forced on real threads by a turnstile (all of them in "
              "thorough), plus free-running runs of 16 threads (replicas of the same histories, valid and invalid inputs) in "
              "separate driver processes; every instance's trace is validated on its own in pixel mode against the decoder model "
-             "and replicas must have identical digests of every observation" % (len(sel), len(orders)))
+             "and replicas must have identical digests of every observation; a pool of 12 streams (Sorenson, baseline, custom "
+             "formats of different Annex D size classes, with UMV) each decoded alone in a fresh process, after another stream, and "
+             "through one reader: digests must agree; twelve instances holding a 4097x4097 picture each" % (len(sel), len(orders)))
 
 
 # =========================================================================== C13
@@ -1590,7 +1601,9 @@ def c13(tier, seed):
              "every height occurs; 1-row, 1-column, odd and <10-wide sizes all included), quantizer cycling through 1..31, intra "
              "pictures and predicted pictures on top; each decoded picture is validated in pixel mode (TraceDecoder) and then "
              "deblocked per plane with the tabulated strength and converted; TLC checks plane shapes, strength, output length, "
-             "absence of panics, and for sizes <= 24x24 every RGBA pixel = Yuv o Deblock of the decoded planes" % (wmax, hmax))
+             "absence of panics, and for sizes <= 24x24 every RGBA pixel = Yuv o Deblock of the decoded planes; runs of pictures of "
+             "equal area and changing shape on one decoder; flat pictures at INTRADC 1 / 254; pictures of more than 2^24 samples "
+             "(lengths only)" % (wmax, hmax))
 
 
 # =========================================================================== C01
@@ -1846,7 +1859,9 @@ def c01(tier, seed):
              "macroblocks present over {0,1,15,16,17,32,33,64,255}, zero sizes, runs past 64 with extreme levels at boundary "
              "quantizers, chains of extreme vector differentials) after six kinds of prior history x four option combinations; "
              "(b) truncation of valid pictures at every byte; (c) 1-3 bit flips, splices, appended garbage, inserted zeros inside "
-             "random histories of valid / invalid pictures with size changes; (d) random bytes behind a start code; every call "
+             "random histories of valid / invalid pictures with size changes; (d) random bytes behind a start code; (a2) PLUSPTYPE + "
+             "UMV pictures with Table D.3 differentials up to +-4095 chained along rows; (e) every clause-5.1 header in front of real "
+             "macroblock data; (f) streams of 6-30 calls through one reader; every call "
              "runs in an isolated driver process with a watchdog; TLC validates every history: the outcome must be ok or err and "
              "the observable state consistent with it; distinct = distinct byte strings")
 
@@ -2000,7 +2015,8 @@ def c05(tier, seed):
              "(last, ref, keys), carried options and the reader probe are unchanged and the continuations decode in pixel mode "
              "against the unchanged model state; (2) every byte split point of I and P pictures delivered in two parts: a "
              "first call that fails must leave everything unchanged and the retry after the rest arrived must equal single "
-             "delivery (pixel mode); distinct = histories")
+             "delivery (pixel mode); late split points of pictures of about 8000 bytes (outcome, state and reader probe); "
+             "distinct = histories")
 
 
 # =========================================================================== C04
